@@ -46,6 +46,16 @@ def planted():
         for der in (["slice", 0, None, None, None], ["slice", 0, 0, 99, 1], ["vcat", 0, []], ["fillna", 0], ["dropna", 0],
                     ["copy", 0], ["sort", 0], ["mask", 0, [True]]):
             ps.append([["newvec", [v + 1 for v in vals], "s", None], der, W(1, 0, 9), W(0, 0, 8), der, W(0, 0, 7), W(2, 0, 6)])
+    # a column REPLACED by a tuple the caller also holds a vector over (t.col = T, t.col__N = T): the table owns its
+    # columns - the new column is writable at once, through its view and through the table, and so is the caller's vector
+    for t in (0, 1):
+        n = 3 if t == 0 else 2
+        tab = ["newtab_dict", [["a", list(range(n))], ["b", list(range(10, 10 + n))]]]
+        for ci in (0, 1):
+            ps.append([["newvec", [], "held", t], tab, ["drop", 1], ["setattr", 1, ci, ["tup", t]], ["colview", 1, ci],
+                       W(2, 0, 5), ["sett", 1, ["cell", 1, ci, 6]], W(0, 0, 4)])
+            ps.append([tab, ["drop", 0], ["setattr", 0, ci, ["tup", t]], ["newvec", [], "late", t], ["colview", 0, ci],
+                       W(2, 0, 5), W(1, 1, 4)])
     return [{"prog": p} for p in ps]
 
 
